@@ -31,3 +31,7 @@ def run(ctx):
     scens = [construction_history(rnd, "k%d" % i) for i in range(n)]
     gl.run_grid(ctx, [("construct", scens)], gl.OBS_NODAL, "C09")
     ctx.assume("the spec promotes the largest admissible subset of all delivered samples after every delivery; since it is a function of the delivered set only, acceptance of every order/batching implies order independence")
+
+
+def replay(ctx, path):
+    return gl.replay(ctx, path, "C09", gl.OBS_NODAL)
